@@ -139,6 +139,33 @@ def _is_generator(fnode):
     return False
 
 
+def _stdlib(modname, attr):
+    """the few stdlib objects the analysed source uses as plain utilities; calling them runs the stdlib itself (trusted, A1)"""
+    import collections, io, itertools
+    table = {('itertools', 'islice'): itertools.islice, ('collections', 'deque'): collections.deque, ('io', 'TextIOBase'): io.TextIOBase,
+             ('itertools', 'chain'): itertools.chain}
+    return table.get((modname, attr))
+
+
+class RxBound:
+    """`re.compile(p, flags).match` held as a value (the lexer's rule table): calling it runs the stdlib regex engine"""
+
+    def __init__(self, rx, attr):
+        self.rx, self.attr = rx, attr
+
+    def __call__(self, text, *pos):
+        import re as _re
+        if text is UNKNOWN:
+            raise Unknown('text matched by a rule')
+        return getattr(_re.compile(self.rx.pattern, self.rx.flags), self.attr)(text, *pos)
+
+    def key(self):
+        return (self.rx.pattern, self.rx.flags, self.attr)
+
+    def __repr__(self):
+        return f'<{self.attr} of {self.rx!r}>'
+
+
 class Obj:
     """a record with attributes (splitter state)"""
 
@@ -146,7 +173,10 @@ class Obj:
         self.__dict__.update(kw)
 
 
-STR_METHODS = {'upper', 'lower', 'split', 'startswith', 'endswith', 'strip', 'join', 'casefold', 'lstrip', 'rstrip', 'isalnum', 'capitalize'}
+STR_METHODS = {'upper', 'lower', 'split', 'startswith', 'endswith', 'strip', 'join', 'casefold', 'lstrip', 'rstrip', 'isalnum', 'capitalize',
+               'splitlines', 'replace', 'find', 'rfind', 'index', 'rindex', 'count', 'isspace', 'isascii', 'isalpha', 'isdigit', 'isupper', 'islower',
+               'title', 'swapcase', 'partition', 'rpartition', 'rsplit', 'expandtabs', 'zfill', 'ljust', 'rjust', 'center', 'removeprefix', 'removesuffix',
+               'isidentifier', 'isnumeric', 'isdecimal', 'istitle', 'isprintable', 'translate', 'encode'}
 
 
 class Evaluator:
@@ -184,7 +214,16 @@ class Evaluator:
                         if hasattr(self, k):
                             setattr(sub, k, getattr(self, k))
                     return MiniFunc(sub, fn_.node, {}, fn_.short)
+                # a module-level constant the folder cannot fold (frozenset('abc'), a comprehension over a table): evaluate it here
+                if n.id in getattr(self.mod, 'assigns', {}):
+                    cache_ = self.ctx.shared('miniev_modconst', dict)
+                    key_ = (self.mod.name, n.id)
+                    if key_ not in cache_:
+                        cache_[key_] = Evaluator(self.ctx, self.mod, None).ev(self.mod.assigns[n.id], {})
+                    return cache_[key_]
                 imp = self.mod.imports.get(n.id)
+                if imp and imp[0] == 'object' and _stdlib(imp[1], imp[2]) is not None:
+                    return _stdlib(imp[1], imp[2])
                 if imp and imp[0] == 'object':
                     fq = f'{imp[1]}.{imp[2]}'
                     fn_ = self.ctx.repo.funcs.get(fq)
@@ -198,6 +237,9 @@ class Evaluator:
             while isinstance(root, ast.Attribute):
                 root = root.value
             if isinstance(root, ast.Name) and root.id not in env:
+                imp_ = self.mod.imports.get(root.id)
+                if imp_ and imp_[0] == 'module' and isinstance(n.value, ast.Name) and _stdlib(imp_[1], n.attr) is not None:
+                    return _stdlib(imp_[1], n.attr)
                 if self.mod.imports.get(root.id) == ('module', 're') and isinstance(n.value, ast.Name):
                     import re as _re
                     v_ = getattr(_re, n.attr, None)
@@ -238,6 +280,8 @@ class Evaluator:
                 return v
             if isinstance(base, str) and n.attr in STR_METHODS:
                 return ('strmethod', base, n.attr)
+            if isinstance(base, Rx) and n.attr in ('match', 'search', 'fullmatch'):
+                return RxBound(base, n.attr)
             raise Unsupported(f'attribute {src(n)}')
         if isinstance(n, ast.JoinedStr):
             parts = []
@@ -283,6 +327,10 @@ class Evaluator:
                 return l + r
             if isinstance(n.op, ast.Add) and isinstance(l, int) and isinstance(r, int):
                 return l + r
+            if isinstance(n.op, (ast.BitOr, ast.BitAnd, ast.Mult)) and isinstance(l, int) and isinstance(r, int):
+                return (l | r) if isinstance(n.op, ast.BitOr) else (l & r) if isinstance(n.op, ast.BitAnd) else l * r
+            if isinstance(n.op, ast.Mult) and isinstance(l, str) and isinstance(r, int):
+                return l * r
             if isinstance(n.op, ast.Sub) and isinstance(l, int) and isinstance(r, int):
                 return l - r
             raise Unsupported('binop')
@@ -377,10 +425,15 @@ class Evaluator:
                 res = l in r
             elif isinstance(r, dict):
                 res = l in r
+            elif isinstance(r, (set, frozenset)):
+                try:
+                    res = l in r
+                except TypeError as e_:
+                    raise Crash(f'TypeError: {e_}')
             else:
                 raise Unsupported('membership')
             return res if isinstance(op, ast.In) else not res
-        if isinstance(l, int) and isinstance(r, int):
+        if (isinstance(l, int) and isinstance(r, int)) or (isinstance(l, str) and isinstance(r, str)):
             if isinstance(op, ast.Lt):
                 return l < r
             if isinstance(op, ast.LtE):
@@ -476,6 +529,12 @@ class Evaluator:
         if isinstance(f, ast.Name) and f.id in env and (isinstance(env[f.id], MiniFunc) or callable(env[f.id])) and not isinstance(env[f.id], type):
             args, kw = self._args(n, env)
             return env[f.id](*args, **kw)
+        # a stdlib utility reached through its module: itertools.islice(...)
+        if isinstance(f, ast.Attribute) and isinstance(f.value, ast.Name) and f.value.id not in env:
+            imp_ = self.mod.imports.get(f.value.id)
+            if imp_ and imp_[0] == 'module' and _stdlib(imp_[1], f.attr) is not None:
+                a2, kw = self._args(n, env)
+                return _stdlib(imp_[1], f.attr)(*a2, **kw)
         # construction of a token / group of sqlparse.sql
         root_ = f
         while isinstance(root_, ast.Attribute):
@@ -552,6 +611,11 @@ class Evaluator:
                     return any(isinstance(x, ClsRef) and obj.isinstance_of(x.cls) for x in cs)
                 if obj is None:
                     return False
+                if isinstance(obj, TT):
+                    return any(isinstance(x, ClsRef) and x.cls.name == '_TokenType' for x in cs) or any(x is tuple for x in cs)
+                if type(obj).__name__ == 'Marker':
+                    # a bare object() of the analysed source (PROCESS_AS_KEYWORD): an instance of no class of interest
+                    return any(x is object for x in cs)
                 if isinstance(obj, str):
                     return any(getattr(x, '__name__', None) == 'str' for x in cs)
                 if all(isinstance(x, type) for x in cs):
@@ -576,7 +640,13 @@ class Evaluator:
                     return args[2]
                 raise Crash(f'AttributeError {args[1]!r} in `{src(n)}`')
             if f.id == 'enumerate' and len(args) in (1, 2):
-                return list(enumerate(*args))
+                a0_ = self._iterate(args[0], n)
+                return enumerate(a0_, *args[1:])
+            if f.id in ('frozenset', 'set') and len(args) <= 1:
+                try:
+                    return frozenset(self._iterate(args[0], n)) if args else frozenset()
+                except TypeError as e_:
+                    raise Crash(f'TypeError in `{src(n)}`: {e_}')
             if f.id in ('list', 'tuple') and len(args) == 1 and isinstance(args[0], AbsToken):
                 args = [self._iterate(args[0], n)]
             if f.id in ('list', 'tuple') and len(args) == 1 and (isinstance(args[0], (list, tuple)) or type(args[0]).__name__ in ('list_iterator', 'list_reverseiterator', 'tuple_iterator')):
@@ -617,6 +687,10 @@ class Evaluator:
             if isinstance(fv, MiniFunc):
                 a2, kw = self._args(n, env)
                 return fv(*a2, **kw)
+            imp_ = self.mod.imports.get(f.id)
+            if fv is not None and imp_ and imp_[0] == 'object' and fv is _stdlib(imp_[1], imp_[2]):
+                a2, kw = self._args(n, env)
+                return fv(*a2, **kw)
             raise Unsupported(f'call {f.id}')
         if isinstance(f, ast.Attribute):
             # token.match(...)
@@ -638,6 +712,13 @@ class Evaluator:
                 return base.match(*args, **kw)
             if base is None:
                 raise Crash(f'method .{f.attr} of None (`{src(n)}`)')
+            if isinstance(base, Rx) and f.attr in ('split', 'findall', 'finditer', 'sub'):
+                import re as _re
+                args = [self.ev(a, env) for a in n.args]
+                if n.keywords or any(x is UNKNOWN for x in args) or not all(isinstance(x, (str, int)) for x in args):
+                    raise Unsupported(f'regex call {src(n)[:40]}')
+                r_ = getattr(_re.compile(base.pattern, base.flags), f.attr)(*args)
+                return list(r_) if f.attr == 'finditer' else r_
             if isinstance(base, Rx) and f.attr in ('search', 'match', 'fullmatch'):
                 # a regex constant of the source applied to a known string
                 import re as _re
@@ -749,6 +830,7 @@ def run_function(ev, fnode, env, max_steps=200):
                 assign(t, v, env)
             elif isinstance(s, ast.AugAssign):
                 cur = ev.ev(ast.Attribute(value=s.target.value, attr=s.target.attr, ctx=ast.Load()) if isinstance(s.target, ast.Attribute)
+                            else ast.Subscript(value=s.target.value, slice=s.target.slice, ctx=ast.Load()) if isinstance(s.target, ast.Subscript)
                             else ast.Name(id=s.target.id, ctx=ast.Load()), env)
                 v = ev.ev(s.value, env)
                 try:
